@@ -29,15 +29,34 @@ pub fn decode(src: &mut Source) -> Box<dyn Case> {
         // a vocabulary shared by all stores: cross-talk would produce plausible-looking hits
         let n = src.range(2, 5);
         (0..n).map(|_| {
+            // words whose tokenisation depends on the store's language (accents of several
+            // inventories, inflectional endings, function words): a store must be searched with
+            // ITS language's tokens
+            let l = *src.pick(&["none", "de", "fr", "es", "ru", "en"]);
             let mut w = String::new();
-            for _ in 0..src.range(1, 6) {
-                gen_letter(src, "none", &mut w, false);
+            match src.below(4) {
+                0 => {
+                    for _ in 0..src.range(2, 6) {
+                        gen_letter(src, l, &mut w, false);
+                    }
+                    w.push_str(*src.pick(suffixes(l)));
+                }
+                1 => {
+                    let f = crate::tables::func_words(l);
+                    if f.is_empty() { w.push_str("the") } else { w.push_str(*src.pick(f)) }
+                }
+                _ => {
+                    for _ in 0..src.range(1, 6) {
+                        gen_letter(src, l, &mut w, false);
+                    }
+                }
             }
             w
         }).collect()
     };
     let mut ops = Vec::new();
     let mut next_rec = 1usize;
+    let mut last_q: Vec<Option<String>> = vec![None; 3];
     while ops.len() < 30 && (ops.len() < 3 || src.chance(9, 10)) {
         let s = src.below(3);
         match live[s] {
@@ -56,7 +75,8 @@ pub fn decode(src: &mut Source) -> Box<dyn Case> {
                     next_rec += 1;
                 }
                 1 => {
-                    let q = match src.weighted(&[2, 5, 2]) {
+                    let q = match src.weighted(&[2, 5, 2, if last_q[s].is_some() { 3 } else { 0 }]) {
+                        3 => last_q[s].clone().unwrap(),
                         0 => String::new(),
                         1 => {
                             let w: Vec<char> = src.pick(&shared_vocab).chars().collect();
@@ -64,6 +84,7 @@ pub fn decode(src: &mut Source) -> Box<dyn Case> {
                         }
                         _ => gen_query(src, lang, &titles[s], &shared_vocab, Flavor::Clean),
                     };
+                    last_q[s] = Some(q.clone());
                     ops.push(Op::Search(IDS[s], q));
                 }
                 2 => {
@@ -74,6 +95,24 @@ pub fn decode(src: &mut Source) -> Box<dyn Case> {
                 _ => {
                     live[s] = None;
                     ops.push(Op::Destroy(IDS[s]));
+                    // half of the time: re-create at once under another language, load the same
+                    // titles and ask the same question again, with nothing in between
+                    if src.chance(1, 2) && ops.len() < 26 {
+                        let lang2 = gen_lang(src);
+                        live[s] = Some(lang2);
+                        ops.push(Op::Create(IDS[s], lang2));
+                        let old = std::mem::take(&mut titles[s]);
+                        for t in old.iter().take(3) {
+                            ops.push(Op::Add(IDS[s], next_rec, t.clone(), src.below(4)));
+                            next_rec += 1;
+                            titles[s].push(t.clone());
+                        }
+                        if let Some(q) = last_q[s].clone() {
+                            ops.push(Op::Search(IDS[s], q));
+                        }
+                    } else {
+                        last_q[s] = None;
+                    }
                 }
             },
         }
